@@ -1,7 +1,9 @@
 (* C18 driver.  case line:
-     <P|C> <fixed 0|1> | <y: id syn warn conf toks> | <l: id syn miss> | <15 settings> | op ; op ; ...
-   op:  <t> Y id syn warn conf toks | <t> L id syn miss | <t> S <15 settings> | <t> B
-   settings order: yk rec vis ed eoc wae sw ser mod st stc lvis led lmod lci
+     <P|C> <fixed 0|1> <tf0> | <y: id syn warn conf toks> | <l: id syn miss> | <17 settings> | op ; op ; ... | <rejected>
+   op:  <t> Y id syn warn conf toks | <t> L id syn miss | <t> S <17 settings> | <t> T <tf> | <t> B
+   settings order: yk rec vis ed eoc wae sw ser mod st stc lx lxc lvis led lmod lci
+   rejected: the inspector's verdict (C18/InspModel.v: an arbitrary function; here a finite table):
+     triples <y_id>:<l_id>:<tf> on which the `test_files` check returns Err; Ok everywhere else
    result: one field per operation, separated by " | ":
      state:  y=<desc@mtime|-> l=<desc@mtime|->   (content descriptors / mtimes of the outputs after the op)
      build:  additionally  r=<ok|err_ysyntax|err_ywarn|err_yconflict|err_lsyntax|panic>
@@ -16,19 +18,19 @@ let lsrc_of = function
   | [id; syn; miss] -> { l_id = nat_of_int id; l_syn = b_of_int syn; l_miss = b_of_int miss }
   | _ -> failwith "lsrc"
 let settings_of = function
-  | [yk; rc; vis; ed; eoc; wae; sw; ser; md; st; stc; lvis; led; lmod; lci] ->
+  | [yk; rc; vis; ed; eoc; wae; sw; ser; md; st; stc; lx; lxc; lvis; led; lmod; lci] ->
     { p_yk = nat_of_int yk; p_rec = nat_of_int rc; p_vis = nat_of_int vis; p_ed = nat_of_int ed;
       p_eoc = b_of_int eoc; p_wae = b_of_int wae; p_sw = b_of_int sw; p_ser = nat_of_int ser;
-      p_mod = nat_of_int md; p_st = nat_of_int st; p_stc = nat_of_int stc; l_vis = nat_of_int lvis; l_ed = nat_of_int led;
+      p_mod = nat_of_int md; p_st = nat_of_int st; p_stc = nat_of_int stc; p_lx = nat_of_int lx; p_lxc = nat_of_int lxc; l_vis = nat_of_int lvis; l_ed = nat_of_int led;
       l_mod = nat_of_int lmod; l_ci = nat_of_int lci }
   | _ -> failwith "settings"
 let i = int_of_nat
 let show_cache c =
-  Printf.sprintf "%d.%d.%d.%d.%d.%d.%d.%d.%d.%d.%d" (i c.c_ser) (i c.c_mod) (i c.c_rec) (i c.c_yk)
-    (int_of_b c.c_eoc) (int_of_b c.c_sw) (int_of_b c.c_wae) (i c.c_ed) (i c.c_toks) (i c.c_vis) (i c.c_stc)
+  Printf.sprintf "%d.%d.%d.%d.%d.%d.%d.%d.%d.%d.%d.%d" (i c.c_ser) (i c.c_mod) (i c.c_rec) (i c.c_yk)
+    (int_of_b c.c_eoc) (int_of_b c.c_sw) (int_of_b c.c_wae) (i c.c_ed) (i c.c_toks) (i c.c_vis) (i c.c_stc) (i c.c_lxc)
 let show_y = function
   | None -> "-"
-  | Some c -> Printf.sprintf "Y%d:%s:%d" (i c.yc_src.y_id) (show_cache c.yc_cache) (i c.yc_st)
+  | Some c -> Printf.sprintf "Y%d:%s:%d.%d" (i c.yc_src.y_id) (show_cache c.yc_cache) (i c.yc_st) (i c.yc_lx)
 let show_l = function
   | None -> "-"
   | Some c -> Printf.sprintf "L%d:%d:%d:%d:%d:%d" (i c.lc_src.l_id) (i c.lc_toks) (i c.lc_vis) (i c.lc_mod) (i c.lc_ci) (i c.lc_st)
@@ -36,24 +38,31 @@ let fst_opt = function None -> None | Some (a, _) -> Some a
 let at f = function None -> "-" | Some (a, mt) -> Printf.sprintf "%s@%d" (f (Some a)) (i mt)
 let show_err = function
   | EYSyntax -> "err_ysyntax" | EYWarn -> "err_ywarn" | EYConflict -> "err_yconflict" | ELSyntax -> "err_lsyntax"
+  | EInspect -> "err_inspect"
 let () =
   iter_lines (fun line ->
     match String.split_on_char '|' line with
-    | [hd; y; l; c; ops] ->
-      let m, fixed = (match split_ws hd with
-        | [m; f] -> ((if m = "P" then MParser else MCombined), f = "1")
+    | [hd; y; l; c; ops; rej] ->
+      let m, fixed, tf0 = (match split_ws hd with
+        | [m; f; tf0] -> ((if m = "P" then MParser else MCombined), f = "1", int_of_string tf0)
         | _ -> failwith "head") in
+      let rejected = List.map (fun w -> match String.split_on_char ':' w with
+        | [a; b; c] -> (int_of_string a, int_of_string b, int_of_string c)
+        | _ -> failwith "rejected") (split_ws rej) in
+      let verdict y l _ tf = not (List.mem (int_of_nat y.y_id, int_of_nat l.l_id, int_of_nat tf) rejected) in
       let ops = List.filter (fun s -> String.trim s <> "") (String.split_on_char ';' ops) in
       let h = List.map (fun o ->
         match split_ws o with
-        | t :: "Y" :: r -> (nat_of_int (int_of_string t), EditY (ysrc_of (List.map int_of_string r)))
-        | t :: "L" :: r -> (nat_of_int (int_of_string t), EditL (lsrc_of (List.map int_of_string r)))
-        | t :: "S" :: r -> (nat_of_int (int_of_string t), SetOpt (settings_of (List.map int_of_string r)))
-        | [t; "B"] -> (nat_of_int (int_of_string t), Build)
+        | t :: "Y" :: r -> (nat_of_int (int_of_string t), IBase (EditY (ysrc_of (List.map int_of_string r))))
+        | t :: "L" :: r -> (nat_of_int (int_of_string t), IBase (EditL (lsrc_of (List.map int_of_string r))))
+        | t :: "S" :: r -> (nat_of_int (int_of_string t), IBase (SetOpt (settings_of (List.map int_of_string r))))
+        | [t; "T"; tf] -> (nat_of_int (int_of_string t), EditT (nat_of_int (int_of_string tf)))
+        | [t; "B"] -> (nat_of_int (int_of_string t), IBase Build)
         | _ -> failwith "op") ops in
-      let s0 = init (ysrc_of (ints_of y)) (lsrc_of (ints_of l)) (settings_of (ints_of c)) in
-      let tr = trace m fixed s0 h in
-      String.concat " | " (List.map (fun (s, r) ->
+      let s0 = init_i (ysrc_of (ints_of y)) (lsrc_of (ints_of l)) (settings_of (ints_of c)) (nat_of_int tf0) in
+      let tr = trace_i verdict m fixed s0 h in
+      String.concat " | " (List.map (fun (x, r) ->
+        let s = x.i_s in
         let st = Printf.sprintf "y=%s l=%s" (at show_y s.s_yout) (at show_l s.s_lout) in
         match r with
         | None -> st
